@@ -393,8 +393,23 @@ def replay_l163(cfg, m):
         if _re.fullmatch(py_must(parts_of[x.pattern]), path):
             first_must = x
             break
+    # dispatch on the real router: 404 exactly when nothing matches, otherwise the chosen route
+    saved = c.request_response
+    try:
+        c.request_response = lambda endpt, request: ('ROUTED', endpt)
+        try:
+            resp = r.dispatch(Req(method, path))
+        except Exception as ex:
+            return True, 'dispatch raised %r for %s %r' % (ex, method, path)
+    finally:
+        c.request_response = saved
     if got is None:
-        return first_must is not None, 'None returned but %s must match %r' % (first_must, path)
+        if first_must is not None:
+            return True, 'None returned but %s must match %r' % (first_must, path)
+        code = getattr(resp, 'status_code', None)
+        return code != 404, 'no route matches %s %r: dispatch answered %r' % (method, path, code if code is not None else resp)
+    if not (isinstance(resp, tuple) and resp[1] is got[0]):
+        return True, 'dispatch did not route %s %r to the route getRoute chose (%r)' % (method, path, resp)
     idx = cands.index(got[0])
     bad = first_must is not None and cands.index(first_must) < idx
     return bad, 'chose %s for %r' % (got[0], path)
